@@ -34,6 +34,14 @@ fn actions() -> Vec<Expr> {
         p(Action::FPrintf("g \"q\\".into(), fmt_no)),
         p(Action::Quit),
         Expr::Test(Test::True),
+        // formats whose ending only looks like a newline escape (or is more than one)
+        p(Action::Printf(vec![Fmt::Field(Field::Name), nl(), nl()])),
+        p(Action::Printf(vec![Fmt::Field(Field::Name), Fmt::Special(Special::Ascii(0o14))])),
+        p(Action::Printf(vec![Fmt::Field(Field::Name), Fmt::Lit("\\n".into())])),
+        // a second spelling of the first file name: a different destination all the same
+        p(Action::FPrint("./f".into())),
+        p(Action::FPrint("f/".into())),
+        p(Action::FPrint0(".//f".into())),
     ]
 }
 
